@@ -409,26 +409,7 @@ def _crc(chk, repo, folder):
         v = s_.value
         ok = ok or (isinstance(v, ast.Call) and folder.try_fold(v.args[0], fi.scope, None) == "B" and src(v.args[1]) == "response" and folder.try_fold(v.args[2], fi.scope, None) == 4)
     chk.check(ok, "R6", f"{CL}:{C}.__init__ | block size from byte 4", init.loc(), "")
-    crc = repo.cls(SB, "CrcXmodem", "C12.R6")
-    pr = crc.methods.get("process")
-    ini = crc.methods.get("__init__")
-    fin = crc.methods.get("final")
-    ok = pr is not None and ini is not None and fin is not None
-    if ok:
-        chk.saw(pr)
-        st = attr_stores(pr.node, "_value")
-        ok = len(st) == 1 and src(st[0].value) == "binascii.crc_hqx(data, self._value)"
-        st0 = attr_stores(ini.node, "_value")
-        # the transfer constructs it without arguments (checked above: `sdo_client.crc_cls()`): parameters hold their defaults
-        a_ = ini.node.args
-        dflt = {p_.arg: folder.try_fold(d_, Scope(crc.mod), None) for p_, d_ in zip((a_.posonlyargs + a_.args)[len(a_.posonlyargs + a_.args) - len(a_.defaults):], a_.defaults)}
-        dflt.update({p_.arg: folder.try_fold(d_, Scope(crc.mod), None) for p_, d_ in zip(a_.kwonlyargs, a_.kw_defaults) if d_ is not None})
-        ok = ok and len(st0) == 1 and folder.try_fold(st0[0].value, Scope(crc.mod, None, dflt), None) == 0 and type(folder.try_fold(st0[0].value, Scope(crc.mod, None, dflt), None)) is int
-        rets = [n for n in own_nodes(fin.node) if isinstance(n, ast.Return)]
-        ok = ok and len(rets) == 1 and src(rets[0].value) == "self._value"
-    chk.check(ok, "R6", f"{SB}:CrcXmodem | CRC-16/XMODEM", f"{SB}:{crc.node.lineno}", "the block CRC is not binascii.crc_hqx chained from 0")
-    base = repo.cls(SB, "SdoBase", "C12.R6")
-    chk.check("crc_cls" in base.consts and src(base.consts["crc_cls"]) == "CrcXmodem", "R6", f"{SB}:SdoBase.crc_cls", f"{SB}:{base.node.lineno}", "crc_cls is not CrcXmodem")
+    crc_identity(chk, "R6")
 
 
 def _writers(chk, repo, folder):
@@ -465,3 +446,39 @@ def _copies(chk, repo, folder):
         chk.check(copy, "R7", f"{CL}:{C}.send | retained segment is a copy", f.loc(c),
                   f"`{src(c)}` keeps a reference to the caller's buffer (a memoryview of io.BufferedWriter's internal buffer, reused after a flush): "
                   "a retransmitted sub-block is resent with other bytes and the download still returns normally")
+
+
+def crc_identity(chk, rule: str):
+    """CrcXmodem is binascii.crc_hqx chained from 0, final() is a pure read, SdoBase.crc_cls names it (shared C12.R6 / C13.R5)."""
+    repo, folder = ctx(chk)
+    crc = repo.cls(SB, "CrcXmodem", f"{chk.prop}.{rule}")
+    pr = crc.methods.get("process")
+    ini = crc.methods.get("__init__")
+    fin = crc.methods.get("final")
+    ok = pr is not None and ini is not None and fin is not None
+    if ok:
+        chk.saw(pr)
+        st = attr_stores(pr.node, "_value")
+        ok = len(st) == 1 and src(st[0].value) == "binascii.crc_hqx(data, self._value)"
+        st0 = attr_stores(ini.node, "_value")
+        # the transfer constructs it without arguments (checked above: `sdo_client.crc_cls()`): parameters hold their defaults
+        a_ = ini.node.args
+        dflt = {p_.arg: folder.try_fold(d_, Scope(crc.mod), None) for p_, d_ in zip((a_.posonlyargs + a_.args)[len(a_.posonlyargs + a_.args) - len(a_.defaults):], a_.defaults)}
+        dflt.update({p_.arg: folder.try_fold(d_, Scope(crc.mod), None) for p_, d_ in zip(a_.kwonlyargs, a_.kw_defaults) if d_ is not None})
+        ok = ok and len(st0) == 1 and folder.try_fold(st0[0].value, Scope(crc.mod, None, dflt), None) == 0 and type(folder.try_fold(st0[0].value, Scope(crc.mod, None, dflt), None)) is int
+        rets = [n for n in own_nodes(fin.node) if isinstance(n, ast.Return)]
+        ok = ok and len(rets) == 1 and (src(rets[0].value) == "self._value" or isinstance(rets[0].value, ast.Name))
+        # reading the checksum does not change it: final() is also what a log line or a comparison may call in the middle of a transfer
+        wr = [n for n in ast.walk(fin.node) if isinstance(n, (ast.Assign, ast.AugAssign)) and any(isinstance(t, ast.Attribute) and dotted(t.value) == "self"
+              for t in ast.walk(n) if isinstance(t, ast.Attribute) and isinstance(t.ctx, ast.Store))]
+        cl_mod = next((m_ for m_ in repo.modules.values() if m_.rel == CL), None)
+        n_final = len([c_ for c_ in ast.walk(ast.parse(cl_mod.src)) if isinstance(c_, ast.Call) and isinstance(c_.func, ast.Attribute) and c_.func.attr == "final"
+                       and "_crc" in src(c_.func.value)]) if cl_mod is not None else 0
+        # (a final() that resets is harmless as long as each transfer asks once, at its end: one call per stream class)
+        if wr and n_final > 2:
+            chk.bad(rule, f"{SB}:CrcXmodem.final | reading the checksum leaves it unchanged", fin.loc(wr[0]),
+                    f"`{src(wr[0])[:50]}`: final() changes the running checksum, so any call before the end of the transfer (a debug line, a retransmission record) restarts "
+                    f"the CRC and the end-of-transfer comparison fails for an undisturbed transfer")
+    chk.check(ok, rule, f"{SB}:CrcXmodem | CRC-16/XMODEM", f"{SB}:{crc.node.lineno}", "the block CRC is not binascii.crc_hqx chained from 0")
+    base = repo.cls(SB, "SdoBase", f"{chk.prop}.{rule}")
+    chk.check("crc_cls" in base.consts and src(base.consts["crc_cls"]) == "CrcXmodem", rule, f"{SB}:SdoBase.crc_cls", f"{SB}:{base.node.lineno}", "crc_cls is not CrcXmodem")
